@@ -874,8 +874,13 @@ impl<F: Read + Write + Seek> Package<F> {
         if self.comp().exists(&stream_name) {
             self.comp_mut().remove_stream(&stream_name)?;
         }
-        // (A package read from a file might not have a _Validation table.)
-        if self.tables.contains_key(VALIDATION_TABLE_NAME) {
+        // (A package read from a file might not have a _Validation table, or
+        // might have one without the usual columns.)
+        let validation_has_table_column = self
+            .tables
+            .get(VALIDATION_TABLE_NAME)
+            .is_some_and(|table| table.has_column("Table"));
+        if validation_has_table_column {
             self.delete_rows(
                 Delete::from(VALIDATION_TABLE_NAME)
                     .with(Expr::col("Table").eq(Expr::string(table_name))),
